@@ -15,12 +15,14 @@ def main():
     ap.add_argument('--replay')
     ap.add_argument('--cases', type=int)
     ap.add_argument('--jobs', type=int)
+    ap.add_argument('--no-evidence', action='store_true')
     a = ap.parse_args()
     seed = int(os.environ.get('VERIF_SEED', '20260926'))
     try:
         mod = importlib.import_module('harness.props.' + a.prop.lower())
         prop = getattr(mod, a.prop.upper())()
-        rc = framework.run_check(prop, a.tier, seed, replay=a.replay, jobs=a.jobs, n_cases=a.cases)
+        rc = framework.run_check(prop, a.tier, seed, replay=a.replay, jobs=a.jobs, n_cases=a.cases,
+                                 write_evidence=not a.no_evidence)
     except Exception:
         traceback.print_exc()
         sys.exit(2)
